@@ -74,10 +74,14 @@ var kernelList = []kernelSpec{
 	{"x/bet/types", "Bet", "CheckSettlementEligiblity"},
 	{"x/subaccount/types", "LockedBalance", "Validate"},
 	{"x/orderbook/types", "OrderBookParticipation", "ValidateWithdraw"},
+	{"x/ovm/types", "PublicKeysChangeProposal", "DecideResult"},
+	{"x/bet/types", "Bet", "SetResult"},
+	{"x/market/types", "Market", "HasOdds"},
+	{"x/market/types", "MarketResolutionTicketPayload", "ValidateWinnerOdds"},
 }
 
 // structs that only occur as parameters
-var extraStructs = []kernelSpec{{"x/mint/types", "Phase", ""}}
+var extraStructs = []kernelSpec{{"x/mint/types", "Phase", ""}, {"x/ovm/types", "Vote", ""}, {"x/market/types", "Odds", ""}}
 
 type ktrans struct {
 	w       *world
@@ -138,9 +142,26 @@ func (k *ktrans) galType(t types.Type) (string, bool) {
 			return "Z", false
 		}
 	case *types.Slice:
+		if et := k.elemType(u.Elem()); et != "" {
+			return "list " + et, false
+		}
 		return "Z", true
 	}
 	return "", false
+}
+
+// elemType: Gallina type of the elements of a slice that is represented as a list ("" = represent the slice by its length only)
+func (k *ktrans) elemType(t types.Type) string {
+	if s := k.structOf(t); s != "" {
+		return "G_" + s
+	}
+	if mathType(t) != "" {
+		return "Z"
+	}
+	if b, ok := t.Underlying().(*types.Basic); ok && (b.Info()&types.IsInteger != 0 || b.Info()&types.IsString != 0) {
+		return "Z"
+	}
+	return ""
 }
 
 func ident(s string) string { return "g_" + s }
@@ -154,6 +175,7 @@ type fctx struct {
 	mutating bool
 	results  string // "none" | "err" | "val" | "valerr" | "bool"
 	bad      string
+	loop     []string // inside a range loop: the tuple of variables carried by the fold (innermost last)
 }
 
 func (c *fctx) fail(format string, a ...any) string {
@@ -383,6 +405,9 @@ func (c *fctx) call(e *ast.CallExpr) string {
 		if f.Name == "len" && len(e.Args) == 1 {
 			if se, ok := e.Args[0].(*ast.SelectorExpr); ok {
 				if s := c.k.structOf(c.info.TypeOf(se.X)); s != "" {
+					if gt, _ := c.k.galType(c.info.TypeOf(se)); strings.HasPrefix(gt, "list ") {
+						return fmt.Sprintf("(klen (G_%s_%s %s))", s, se.Sel.Name, c.expr(se.X))
+					}
 					return fmt.Sprintf("(G_%s_%s %s)", s, se.Sel.Name, c.expr(se.X))
 				}
 			}
@@ -513,13 +538,166 @@ func (c *fctx) assignTo(lhs ast.Expr, rhs string, rest string) string {
 	return c.fail("assignment target %T", lhs)
 }
 
+// loopState renders the tuple carried by the innermost fold, with the given value of the "broke out" flag
+func (c *fctx) loopState(brk string) string {
+	vars := c.loop[len(c.loop)-1]
+	if vars == "" {
+		return brk
+	}
+	return "(" + vars + ", " + brk + ")"
+}
+
+func zeroOf(t types.Type) string {
+	if b, ok := t.Underlying().(*types.Basic); ok && b.Info()&types.IsBoolean != 0 {
+		return "false"
+	}
+	return "0"
+}
+
+// assignedIn: the variables declared outside `body` that `body` assigns to (in order of first assignment)
+func (c *fctx) assignedIn(body *ast.BlockStmt) []string {
+	declared := map[string]bool{}
+	var out []string
+	seen := map[string]bool{}
+	add := func(e ast.Expr, define bool) {
+		var id *ast.Ident
+		switch l := e.(type) {
+		case *ast.Ident:
+			id = l
+		case *ast.SelectorExpr:
+			if x, ok := l.X.(*ast.Ident); ok {
+				id = x
+			}
+		}
+		if id == nil || id.Name == "_" {
+			return
+		}
+		if define {
+			declared[id.Name] = true
+			return
+		}
+		if !declared[id.Name] && !seen[id.Name] {
+			seen[id.Name] = true
+			out = append(out, id.Name)
+		}
+	}
+	ast.Inspect(body, func(n ast.Node) bool {
+		switch x := n.(type) {
+		case *ast.AssignStmt:
+			for _, l := range x.Lhs {
+				add(l, x.Tok == token.DEFINE)
+			}
+		case *ast.IncDecStmt:
+			add(x.X, false)
+		case *ast.RangeStmt:
+			if x.Value != nil {
+				add(x.Value, true)
+			}
+			if x.Key != nil {
+				add(x.Key, true)
+			}
+		case *ast.DeclStmt:
+			if gd, ok := x.Decl.(*ast.GenDecl); ok {
+				for _, sp := range gd.Specs {
+					if vs, ok := sp.(*ast.ValueSpec); ok {
+						for _, nm := range vs.Names {
+							declared[nm.Name] = true
+						}
+					}
+				}
+			}
+		}
+		return true
+	})
+	return out
+}
+
 func (c *fctx) stmts(list []ast.Stmt) string {
 	if len(list) == 0 {
+		if len(c.loop) > 0 {
+			return c.loopState("false")
+		}
 		return c.finish()
 	}
 	rest := func() string { return c.stmts(list[1:]) }
 	switch s := list[0].(type) {
+	case *ast.BranchStmt:
+		if len(c.loop) > 0 && s.Label == nil {
+			switch s.Tok {
+			case token.BREAK:
+				return c.loopState("true")
+			case token.CONTINUE:
+				return c.loopState("false")
+			}
+		}
+		return c.fail("branch statement %s", s.Tok)
+	case *ast.RangeStmt:
+		// for _, v := range E { body }   ==>   a fold over the list E carrying the variables the body assigns and a "broke out" flag
+		if s.Key != nil {
+			if id, ok := s.Key.(*ast.Ident); !ok || id.Name != "_" {
+				return c.fail("range loop using the index")
+			}
+		}
+		vname := "g__unused"
+		if s.Value != nil {
+			if id, ok := s.Value.(*ast.Ident); ok && id.Name != "_" {
+				vname = ident(id.Name)
+			}
+		}
+		gt, _ := c.k.galType(c.info.TypeOf(s.X))
+		if !strings.HasPrefix(gt, "list ") {
+			return c.fail("range over a value that is not represented as a list")
+		}
+		var vars []string
+		for _, a := range c.assignedIn(s.Body) {
+			vars = append(vars, ident(a))
+		}
+		// a return inside the (outermost) loop: carried as an optional result that also ends the loop
+		hasRet := false
+		ast.Inspect(s.Body, func(n ast.Node) bool {
+			if _, ok := n.(*ast.ReturnStmt); ok {
+				hasRet = true
+			}
+			return true
+		})
+		if hasRet {
+			if len(c.loop) > 0 {
+				return c.fail("return inside a nested range loop")
+			}
+			vars = append(vars, "g__ret")
+		}
+		tuple := strings.Join(vars, ", ")
+		c.loop = append(c.loop, tuple)
+		body := c.stmts(s.Body.List)
+		st := c.loopState("g__brk")
+		init := c.loopState("false")
+		stop := c.loopState("true")
+		c.loop = c.loop[:len(c.loop)-1]
+		pat := st
+		if !strings.HasPrefix(pat, "(") {
+			pat = "g__brk"
+		} else {
+			pat = "'" + pat
+		}
+		after := rest()
+		pre := ""
+		if hasRet {
+			pre = "let g__ret := None in\n  "
+			after = fmt.Sprintf("match g__ret with Some g__r => g__r | None => %s end", after)
+		}
+		return fmt.Sprintf("%slet %s := kfold %s %s (fun %s %s => if g__brk then %s else %s) in\n  %s",
+			pre, pat, init, c.expr(s.X), pat, vname, stop, body, after)
 	case *ast.ReturnStmt:
+		if len(c.loop) == 1 {
+			saved := c.loop
+			c.loop = nil
+			r := c.ret(s)
+			c.loop = saved
+			return fmt.Sprintf("let g__ret := Some (%s) in\n  %s", r, c.loopState("true"))
+		}
+		if len(c.loop) > 1 {
+			return c.fail("return inside a nested range loop")
+		}
 		return c.ret(s)
 	case *ast.BlockStmt:
 		return c.stmts(append(append([]ast.Stmt{}, s.List...), list[1:]...))
@@ -583,6 +761,25 @@ func (c *fctx) stmts(list []ast.Stmt) string {
 		}
 		return tail
 	case *ast.DeclStmt:
+		// var x T  /  var x = e
+		if gd, ok := s.Decl.(*ast.GenDecl); ok && gd.Tok == token.VAR {
+			out := rest()
+			for i := len(gd.Specs) - 1; i >= 0; i-- {
+				vs := gd.Specs[i].(*ast.ValueSpec)
+				for j := len(vs.Names) - 1; j >= 0; j-- {
+					val := ""
+					if j < len(vs.Values) {
+						val = c.expr(vs.Values[j])
+					} else if obj := c.info.Defs[vs.Names[j]]; obj != nil {
+						val = zeroOf(obj.Type())
+					} else {
+						val = "0"
+					}
+					out = fmt.Sprintf("let %s := %s in\n  %s", ident(vs.Names[j].Name), val, out)
+				}
+			}
+			return out
+		}
 		return rest()
 	case *ast.AssignStmt:
 		// x, err := f(...) ; if err != nil { return ..., err }   ==>   match f ... with Some x => rest | None => <the error return> end
@@ -729,6 +926,8 @@ func analyseKernels(w *world) string {
 	b.WriteString("   Each K_<Type>_<method> is the translation of the Go method of that name; Proofs/GenKernels.v proves it equal to the\n")
 	b.WriteString("   corresponding function of the hand-written model. *)\n")
 	b.WriteString("From Coq Require Import ZArith Bool List.\nFrom Sge Require Import Lib.Dec.\nImport ListNotations.\nOpen Scope Z_scope.\nOpen Scope bool_scope.\n\n")
+	b.WriteString("Definition klen {A} (l : list A) : Z := Z.of_nat (length l).\n")
+	b.WriteString("(* a range loop: the state carries the variables the body assigns and a flag set by break / return *)\nDefinition kfold {S A} (init : S) (l : list A) (f : S -> A -> S) : S := fold_left f l init.\n")
 	b.WriteString("Definition dec_ceil (a : Z) : Z := let q := Z.quot a PREC in let r := Z.rem a PREC in if r =? 0 then q * PREC else if r <? 0 then q * PREC else (q + 1) * PREC.\n\n")
 	// records
 	for _, name := range k.order {
